@@ -1,6 +1,6 @@
 PLAN = {
     "level": "exploration",
-    "quick": [replays("C14"), tape("C14", 10000, size=400)],
+    "quick": [replays("C14"), tape("C14", 10000, size=450)],
     "thorough": [replays("C14"), tape("C14", 200000, size=500)],
     "class_floors": {
         "cellml-1.0": 0.2, "cellml-1.1": 0.2, "encapsulation-group": 0.2, "component-level-units": 0.1,
@@ -8,13 +8,15 @@ PLAN = {
         "cellml-ns-on-math": 0.02, "cellml-ns-on-model": 0.02, "cellml-ns-on-component": 0.02, "cellml-ns-on-cn": 0.02,
         "cmeta-id": 0.1, "old-spelling": 0.1, "extras": 0.1, "import": 0.03, "connection": 0.1,
         "special:explicit-none": 0.02, "special:spelling-in-math": 0.005, "special:split-groups": 0.01, "special:deep-extras": 0.02,
+        "special:math-element-id": 0.01, "special:mathml-ns-on-ancestor": 0.01, "special:group-connection-id": 0.01, "special:split-trees": 0.005, "special:scoped-units-copies": 0.005,
+        "mathml-prefixed": 0.03, "cellml-elements-prefixed": 0.1, "cmeta-id-in-math": 0.05, "cmeta-declared-on-model-only": 0.02,
         "validator-accepts-original": 0.05,
-        "reuse-subcase": 0.2, "reuse:second-is-1.x": 0.1, "reuse:second-is-2.0": 0.05, "reuse:first-has-component-level-units": 0.05,
+        "reuse-subcase": 0.15, "reuse:second-is-1.x": 0.07, "reuse:second-is-2.0": 0.03, "reuse:first-has-component-level-units": 0.03,
     },
 }
 CLAIM = {
     "engine": "rapidcheck-tape",
     "technique": "property-based testing: generated valid models rewritten to CellML 1.0/1.1 by an independent writer, permissive parse compared with the API-built 2.0 model through an independent canonical dump (translation round trip), plus issue-level, strict-refusal and validator oracles",
     "text": "Random exploration (ten thousand generated matched 1.x/2.0 pairs per quick run) of the permissive transformation: namespaces 1.0 and 1.1, encapsulation groups, map_components in both orders, public/private interface attributes in both orders, units declared inside components, cmeta:id, liter/meter, cellml:units bound to the 1.x namespace on math / model / component / cn under several prefixes, RDF and extension content, permuted attributes and children. The oracle shares no code with the parser (own writer, own dump through public getters, own MathML canonicaliser, libxml2 self-check of the writer). Finds content loss, wrong interface merging, wrong issue levels, namespaces left behind and strict-mode acceptance; cannot show absence.",
-    "note": "Trusts libxml2 (same version the library links), the harness's writer/dump/canonicaliser and the generator's validity (validator consulted on 20 % of cases). Four input classes that isolate known findings (explicit \"none\", liter/meter on cn, several encapsulation groups, RDF/extension content below units/connection/group/import) are generated separately so that they cannot mask the main class.",
+    "note": "Trusts libxml2 (same version the library links), the harness's writer/dump/canonicaliser and the generator's validity (validator consulted on 20 % of cases). Nine input classes that isolate findings (explicit \"none\", liter/meter on cn, several encapsulation groups, sibling component_ref trees, RDF/extension content below units/connection/group/import, cmeta:id on math, MathML namespace on an ancestor, ids on group/connection, component-scoped copies of units) are generated separately so that they cannot mask the main class.",
 }
